@@ -58,7 +58,7 @@ def valid_tokens(name, kind, enum, rng, full):
     return ["13", "16", "16.5", "17", "17.0", "20.5", "25", "30", "30.5", "31.0", "43.5", "21.50"] + ([("%d.5" % t) for t in range(13, 43)] if full else [])
 
 
-def run_cli(argv, model: acdev.ACModel, ver):
+def run_cli(argv, model: acdev.ACModel, ver, setup_extra=None):
     """Run msmart.cli.main() with argv against `model` (its state persists); returns observation dict."""
     import msmart.cli as cli
     vloop.install_clock()
@@ -68,6 +68,8 @@ def run_cli(argv, model: acdev.ACModel, ver):
         net = vloop.Net(loop)
         landev.LanDevice(loop, net, model, version=ver, token=TOK, key=KEY)
         nets.append(net)
+        if setup_extra:
+            setup_extra(loop, net)
     pol = vloop.VPolicy(setup)
     old_policy = asyncio.get_event_loop_policy()
     old_argv = sys.argv
@@ -230,6 +232,8 @@ def run(ctx: Ctx) -> int:
     ctx.extra["invocations"] = len(vectors)
     ctx.extra["exit_status_seen"] = {str(c): sum(1 for v in vectors if v["exit"] == c) for c in sorted({v["exit"] for v in vectors})}
     ctx.sample({"argv": vectors[0]["argv"], "exit": vectors[0]["exit"], "reported": vectors[0]["reported"], "after": vectors[0]["after"]})
+    from .. import cliquery
+    cliquery.growth(ctx)                 # spec growth beyond C20: `msmart-ng query` (spec/CliQuery.tla); conformance drift only
     return ctx.finish(
         rule="every setting of the documented catalogue (29 incl. deprecated aliases and display_on) x every member name (lower / upper / mixed case) and "
              "member value, raw fan speeds, all boolean spellings, int and decimal numbers, half-degree setpoints; per-kind garbage values, missing / "
